@@ -253,7 +253,7 @@ def _weight(cfg):
     return w + int(cfg.get('m') or 0) + int(cfg.get('n') or 0)
 
 
-def explore_loci(modname, results, run=None, admissible=None, max_new=24, max_depth=3, prefer_largest=False, per_config=False):
+def explore_loci(modname, results, run=None, admissible=None, max_new=24, max_depth=3, prefer_largest=False, per_config=False, per_depth_budget=False):
     """further passes over the equality loci: wherever the executed package code compared a symbolic input with another symbolic
     input or with a number (== / !=), the first pass took the generic branch (not equal).  Every such locus is explored with the
     equality imposed (same symbol / that number), one follow-up per (locus, group); the comparisons met ON a locus are explored in
@@ -266,6 +266,8 @@ def explore_loci(modname, results, run=None, admissible=None, max_new=24, max_de
     seen = set()
     budget = max_new
     for depth in range(max_depth):
+        if per_depth_budget:
+            budget = max_new        # loci of loci get their own follow-ups even when the first level used all of its own
         by_locus = {}
         for r in frontier:
             if r.get('error') or r.get('sat') or r.get('oob') or r.get('memview') or 'cfg' not in r:
@@ -309,8 +311,8 @@ def explore_loci(modname, results, run=None, admissible=None, max_new=24, max_de
                         unexplored.append({'where': where, 'comparison': [a, b], 'configuration': cfg0['group']})
                     continue
                 for vn, to in pairs:
-                    if '#' in vn or '!' in vn or '#' in to or '!' in to or vn in base_alias:
-                        continue            # harness atoms (integral tables, trig classes), not inputs
+                    if '#' in vn or '!' in vn or '#' in to or '!' in to or vn in base_alias or vn == 'pi' or to == 'pi':
+                        continue            # harness atoms (integral tables, trig classes, the constant pi), not inputs
                     if admissible is not None and not admissible(vn, to, cfg0):
                         inadmissible.add('%s %s  @ %s' % (vn, to, where))
                         continue
@@ -351,7 +353,7 @@ def explore_loci(modname, results, run=None, admissible=None, max_new=24, max_de
         explored += [r['cfg']['group'] for r in res2]
         out += res2
         frontier = res2
-        if budget <= 0:
+        if budget <= 0 and not per_depth_budget:
             break
     if run is not None:
         run.extra['equality_loci'] = {
